@@ -83,7 +83,7 @@ def body(case, ctx, tmp):
     save_initial = bool(rng.integers(0, 2))
     tags = {"state": kind}
     cur = {"epoch": None}
-    rec_metric = {"a": [], "b": [], "c": []}  # name -> [(epoch, value)]
+    rec_metric = {"a": [], "b": [], "c": [], "period": []}  # name -> [(epoch, value)]
     rec_obs = []  # [(epoch, dict)]
     rec_log = []  # [(epoch, message)]
     snaps = {}  # epoch -> params snapshot
@@ -104,18 +104,33 @@ def body(case, ctx, tmp):
     rec = trainrec.recorder_callback(log, digest_params=False, extra=on_ev, stop_at=stop_at)
 
     stale = []
+    csv_rows_due = [0]  # rows the metric log must hold once the current epoch-end event is over (append-only over all runs)
+    csv_late = []
+
+    def csv_probe(s_, e_):
+        # another callback, listed after the evaluators, reads the log DURING the run (a dashboard tailing the file): the
+        # rows of all evaluations made so far are there, not buffered until the run ends
+        try:
+            n_ = sum(1 for l_ in open(csv1).read().splitlines()[1:] if l_.strip())
+        except OSError:
+            n_ = -1
+        ctx.count("csv_reads_during_the_run")
+        if n_ != csv_rows_due[0] and not csv_late:
+            csv_late.append(f"at the end of epoch {e_} the metric log holds {n_} rows, {csv_rows_due[0]} evaluations have been made")
 
     def mk_metric(name):
         def f(nn_state, **k):
-            v = float(sum(float(p.data.sum()) for p in nn_state.rbm_am.parameters())) + {"a": 0.0, "b": 1.0, "c": 2.0}[name]
+            v = float(sum(float(p.data.sum()) for p in nn_state.rbm_am.parameters())) + OFFSETS[name]
             if name == "b":
                 v = np.float64(v)
             rec_metric[name].append((cur["epoch"], v))
+            if name == "a":
+                csv_rows_due[0] += 1
             # evaluated on the parameters the model has at the END of this epoch (snapshot taken at the same event by the
             # first callback in the list), not on those before the epoch's last update
             sn_ = snaps.get(cur["epoch"])
             if sn_ is not None:
-                exp_ = float(sum(float(t_.sum()) for k_, t_ in sn_.items() if k_.startswith("rbm_am."))) + {"a": 0.0, "b": 1.0, "c": 2.0}[name]
+                exp_ = float(sum(float(t_.sum()) for k_, t_ in sn_.items() if k_.startswith("rbm_am."))) + OFFSETS[name]
                 ctx.count("metric_values_vs_epoch_end_parameters")
                 if abs(float(v) - exp_) > 1e-10 * (1 + abs(exp_)) and not stale:
                     stale.append(f"metric {name!r} at epoch {cur['epoch']} saw parameters giving {float(v)!r}; the parameters at the end of that "
@@ -127,7 +142,9 @@ def body(case, ctx, tmp):
     csvo = os.path.join(tmp, "o.csv")
     verbose = i % 4 == 2  # also run the printing paths (their output goes to the worker log)
     ev1 = MetricEvaluator(pm1, {"a": mk_metric("a"), "b": mk_metric("b")}, log=csv1, verbose=verbose, offset=3)
-    ev2 = MetricEvaluator(pm2, {"c": mk_metric("c")}, verbose=verbose)
+    # a metric may be called like one of the evaluator's own attributes ("period"): the subscript form ev["period"] is the
+    # metric's value series, whatever the attribute of that name holds
+    ev2 = MetricEvaluator(pm2, {"c": mk_metric("c"), "period": mk_metric("period")}, verbose=verbose)
     obs = [SigmaZ(), NeighbourInteraction(c=1)]
     evo = ObservableEvaluator(po, obs, log=csvo, verbose=verbose, num_samples=6, num_chains=3, burn_in=2, steps=1)
     if verbose:
@@ -168,7 +185,9 @@ def body(case, ctx, tmp):
 
     use_gen = bool(rng.integers(0, 2))
     lg = Logger(plg, logger_fn=logfn, msg_gen=(lambda s, e, **k: f"E={e};k={sorted(k.items())}") if use_gen else None, note="n1")
-    cbs = [rec, ev1, ev2, evo, saver, lg]
+    from qucumber.callbacks import LambdaCallback
+
+    cbs = [rec, ev1, ev2, evo, saver, lg, LambdaCallback(on_epoch_end=csv_probe)]
 
     cform = trainrec.CONTAINER_FORMS[i % len(trainrec.CONTAINER_FORMS)]
     ctx.seen("callback_container_forms", cform)
@@ -216,6 +235,9 @@ def body(case, ctx, tmp):
         check_all(ctx, tags, (ran2 if clear else ran_all), (pm1, pm2, po, psv, plg), ev1, ev2, evo, rec_metric, rec_obs, rec_log, snaps,
                   folder, md_mode, md_obj, save_initial, csv1, csvo, st, use_gen, first_run=False, kind=kind, csv_epochs=ran_all,
                   log_epochs=ran_all)
+    if csv_late:
+        ctx.violation("csv-rows", "the CSV log lags behind the evaluations while training is running: " + csv_late[0],
+                      tags=dict(tags, cb="MetricEvaluator", during_run=True))
     if stale:
         ctx.violation("metric-records", "an evaluator was run on parameters that are not those at the end of its epoch: " + stale[0],
                       tags=dict(tags, cb="MetricEvaluator", stale_parameters=True))
@@ -228,6 +250,14 @@ def body(case, ctx, tmp):
                 "stop_at_event": stop_at, "ran": ran1, "metadata": md_mode, "two_runs": two_runs, "clear": clear})
 
 
+OFFSETS = {"a": 0.0, "b": 1.0, "c": 2.0, "period": 3.0}
+
+
+def value_series(ev, nm):
+    """the value series of a metric: attribute style, or subscript style for names that collide with an attribute"""
+    return ev[nm] if nm in ("period",) else getattr(ev, nm)
+
+
 def check_all(ctx, tags, ran, periods, ev1, ev2, evo, rec_metric, rec_obs, rec_log, snaps, folder, md_mode, md_obj, save_initial,
               csv1, csvo, st, use_gen, first_run, kind, csv_epochs=None, log_epochs=None):
     pm1, pm2, po, psv, plg = periods
@@ -237,7 +267,7 @@ def check_all(ctx, tags, ran, periods, ev1, ev2, evo, rec_metric, rec_obs, rec_l
         return [e for e in (ran if eps is None else eps) if e % p == 0]
 
     # ---- metric evaluators
-    for ev, p, names in ((ev1, pm1, ["a", "b"]), (ev2, pm2, ["c"])):
+    for ev, p, names in ((ev1, pm1, ["a", "b"]), (ev2, pm2, ["c", "period"])):
         want_ep = acted(p)
         for nm in names:
             recd = rec_metric[nm]
@@ -251,7 +281,7 @@ def check_all(ctx, tags, ran, periods, ev1, ev2, evo, rec_metric, rec_obs, rec_l
         # arrays handed out are the caller's: modifying them must not change the record
         for nm in names:
             if want_ep:
-                arr_ = getattr(ev, nm)
+                arr_ = value_series(ev, nm)
                 try:
                     arr_[...] = -12345.0
                 except Exception:  # noqa: BLE001  (read-only array: fine)
@@ -269,8 +299,13 @@ def check_all(ctx, tags, ran, periods, ev1, ev2, evo, rec_metric, rec_obs, rec_l
             bad.append(f"names={ev.names}")
         for nm in names:
             vals = [v for _, v in rec_metric[nm]]
-            arr = ctx.lib("MetricEvaluator.<name>", getattr, ev, nm, tags=dict(tags, cb="MetricEvaluator")) if want_ep else np.array([])
-            if list(arr) != vals or (want_ep and list(ev[nm]) != vals):
+            arr = ctx.lib("MetricEvaluator.<name>", value_series, ev, nm, tags=dict(tags, cb="MetricEvaluator")) if want_ep else np.array([])
+            sub_ = ev[nm] if want_ep else arr
+            if not (hasattr(arr, "__iter__") and hasattr(sub_, "__iter__")):
+                bad.append(f"the value series of metric {nm!r} came back as {type(arr).__name__} / ev[{nm!r}] as {type(sub_).__name__} "
+                           f"({str(sub_)[:60]}) instead of the recorded values {vals[:4]}")
+                continue
+            if list(arr) != vals or (want_ep and list(sub_) != vals):
                 bad.append(f"{nm} array {list(arr)[:4]} vs recorded {vals[:4]}")
             for j in range(-len(vals), len(vals)):
                 if ctx.lib("MetricEvaluator.get_value", ev.get_value, nm, j, tags=dict(tags, cb="MetricEvaluator")) != vals[j]:
@@ -285,7 +320,8 @@ def check_all(ctx, tags, ran, periods, ev1, ev2, evo, rec_metric, rec_obs, rec_l
                 ev.last[k_] = -31337.0
             for nm in names:
                 vals = [v for _, v in rec_metric[nm]]
-                if vals and (ev.get_value(nm, -1) != vals[-1] or list(getattr(ev, nm))[-1] != vals[-1]):
+                vs_ = value_series(ev, nm)
+                if vals and (ev.get_value(nm, -1) != vals[-1] or not hasattr(vs_, "__iter__") or list(vs_)[-1] != vals[-1]):
                     bad.append(f"editing the dict handed out as `last` changed the recorded history of {nm!r}")
             try:
                 ev.last = {nm: rec_metric[nm][-1][1] for nm in names if rec_metric[nm]}
